@@ -59,3 +59,28 @@ pub fn region_in_decoder<R: Read + Send + 'static>(
     let base = Region::new_from_size(Offset::zero(), Size::new(total_size as u64));
     region(Arc::new(source), base, begin, size)
 }
+
+/// As `region_in_decoder` with the decoder running in a loom thread and publishing its
+/// progress every `chunk_size` bytes.
+#[cfg(jubako_verif_loom)]
+pub fn region_in_decoder_chunked<R: Read + Send + 'static>(
+    decoder: R,
+    total_size: usize,
+    chunk_size: usize,
+    begin: u64,
+    size: u64,
+) -> ByteRegion {
+    let source = SeekableDecoder::new_verif(decoder, ASize::new(total_size), chunk_size);
+    let base = Region::new_from_size(Offset::zero(), Size::new(total_size as u64));
+    region(Arc::new(source), base, begin, size)
+}
+
+/// `Source::read` on the source of the region (offset relative to the region).
+pub fn region_read(r: &ByteRegion, offset: u64, buf: &mut [u8]) -> std::io::Result<usize> {
+    r.source.read(r.region.begin() + Offset::new(offset), buf)
+}
+
+/// `Source::read_exact` on the source of the region (offset relative to the region).
+pub fn region_read_exact(r: &ByteRegion, offset: u64, buf: &mut [u8]) -> std::io::Result<()> {
+    r.source.read_exact(r.region.begin() + Offset::new(offset), buf)
+}
